@@ -50,7 +50,7 @@ P('C02', ['replicated.newFunc', 'FastQueue', 'applyCommand', 'checkCommandsToApp
   '"SUCCESS => the command occupies one position cluster-wide and is never undone" and "error => applied on no node" beyond the local '
   'journal rest on ' + A_RAFT + '. The closure of the `replicated` decorator is under contract (unit replicated.newFunc; threading.Event trusted); `replicated_sync` only sets defaults and delegates. '
   'Thread interleavings are C19 (not applicable).',
-  assumptions=[A_RAFT, 'A-PROTO-3: a success reply for index i reaches the submitter before it applies i', 'A-USERCODE'])
+  lemmas=['FRAME-C02'], assumptions=[A_RAFT, 'A-PROTO-3: a success reply for index i reaches the submitter before it applies i', 'A-USERCODE'])
 
 P('C03', ['msg.request_vote', 'msg.response_vote', 'tick.election', 'tick.leader', 'msg.append_entries'],
   'R1-R5 proved on the real handlers and tick: term never decreases and the vote changes only from None or on a new term; a vote is '
@@ -59,15 +59,16 @@ P('C03', ['msg.request_vote', 'msg.response_vote', 'tick.election', 'tick.leader
   'leader never rewrites its log. Lemma L-ELECT (two majorities of write-once votes intersect) is discharged for N=1..5.',
   'Leader completeness (second sentence of the statement) rests on R2 (up-to-date check) + R9 + ' + A_RAFT + '. Votes are not '
   'de-duplicated per voter in the code; with at-most-once delivery of each response (T-TRANSPORT) this is sound, and the assumption is listed.',
-  lemmas=['L-ELECT'], assumptions=[A_RAFT, 'T-TRANSPORT: each response_vote is delivered at most once'])
+  lemmas=['L-ELECT', 'X-ENGINE'], assumptions=[A_RAFT, 'T-TRANSPORT: each response_vote is delivered at most once'])
 
-P('C04', ['getEntries', 'tick.leader', 'tick.not-leader', 'msg.next_node_idx', 'msg.append_entries', 'applyLogEntries', 'loadDumpFile'],
+P('C04', ['getEntries', 'tick.leader', 'tick.not-leader', 'msg.next_node_idx', 'msg.append_entries', 'applyLogEntries', 'loadDumpFile',
+          'msg.response_vote', 'tick.election', 'doChangeCluster'],
   'R9 with its loop invariant (commit advances only to an entry matched by a majority of voters and of the current term), R10 '
   '(matchIndex only grows, only from a success reply), R6-R8 on the follower (no deletion without conflict, commit within the '
   'verified prefix, never lowered), monotone applied index, and a frame obligation: the set of functions that assign the commit or '
   'applied index is computed from the AST and every writer is under contract.',
   'Cross-node finality ("never differs on any node") is ' + A_RAFT + '.',
-  lemmas=['FRAME-C04'], assumptions=[A_RAFT, 'R_AE'])
+  lemmas=['FRAME-C04', 'X-ENGINE'], assumptions=[A_RAFT, 'R_AE'])
 
 P('C06', ['init.startup', 'loadDumpFile', 'msg.append_entries', 'tryLogCompaction', 'serializer.serialize', 'serializer.checkSerializing',
           'serializer.setTransmissionData.file', 'ResizableFile.write', 'FileJournal.add', 'FileJournal.clear', 'FileJournal.deleteEntriesFrom',
@@ -178,6 +179,12 @@ LEMMAS['FRAME-C04'] = _lemma_frame('C04', {
     '__raftMatchIndex': ['__init__', '__onMessageReceived', '__onReadonlyNodeConnected', '__onReadonlyNodeDisconnected', '__onBecomeLeader',
                          '__doChangeCluster', '__updateClusterConfiguration'],
 })
+LEMMAS['FRAME-C02'] = _lemma_frame('C02', {
+    # request ids of forwarded commands must never be reused: the counter is only ever incremented, and only where an id is issued
+    '__commandsLocalCounter': ['__init__', '_checkCommandsToApply'],
+    '__commandsWaitingReply': ['__init__', '_checkCommandsToApply', '__onMessageReceived', '__onLeaderChanged'],
+    '__commandsWaitingCommit': ['__init__', '_checkCommandsToApply', '__onMessageReceived', '__applyLogEntries'],
+})
 LEMMAS['FRAME-C20'] = _lemma_frame('C20', {
     '__lastResponseTime': ['__init__', '__onMessageReceived', '__onBecomeLeader', '__doChangeCluster'],
 })
@@ -266,6 +273,15 @@ def _x_locks():
     return crosscheck.crosscheck_locks(int(os.environ.get('VERIF_SEED', '0') or 0))
 
 
+def _x_engine():
+    import os
+    from contracts import crosscheck
+    if os.environ.get('PYVC_TIER', '') != 'thorough':
+        return []
+    return crosscheck.crosscheck_handlers(int(os.environ.get('VERIF_SEED', '0') or 0), 120)
+
+
+LEMMAS['X-ENGINE'] = _x_engine
 LEMMAS['X-BATTERIES'] = _x_batteries
 LEMMAS['X-LOCKS'] = _x_locks
 P('C15', _bc.ALL_UNITS + ['consumer.serialize'],
